@@ -107,6 +107,9 @@ def build(root, world):
                 target = st[2]
                 rt = (root + target) if target.startswith('/') else target
                 O.symlink(rt, rp)
+            elif kind == 'h':
+                # a hard link: another name of the file st[2] (same file system)
+                os.link(root + st[2], rp)
             elif kind == 'own':
                 # numeric owner / group that have no passwd / group entry (a disk from another machine, an unpacked tarball)
                 os.lchown(rp, st[2], st[3])
